@@ -243,8 +243,11 @@ fire('C05', 'filter-sort-deleted', 'C05.R1', 'ReservablePriorityReqFilterStore.r
      lambda p: M.delete_stmt(p, S_FS, 'ReservablePriorityReqFilterStore.reserve_put', M.stmt_calling('self.reserve_put_queue.sort')))
 fire('C05', 'buffer-enqueue-at-front', 'C05.R', 'BufferStore.reserve_put',
      lambda p: M.replace_node(p, S_BUF, 'BufferStore.reserve_put', M.stmt_calling('self.reserve_put_queue.append'), 'self.reserve_put_queue.insert(0, event)'))
-fire('C05', 'rs-cancel-pops-head', 'C05.R2', 'ReservableReqStore.reserve_get_cancel',
-     lambda p: M.replace_node(p, S_RS, 'ReservableReqStore.reserve_get_cancel', M.stmt_calling('self.reserve_get_queue.remove'), 'self.reserve_get_queue.pop(0)'))
+# removing the head instead of the cancelled request is wrong (C07/C04), but the relative service order of the remaining requests - C05 - is unchanged
+silent('C05', 'rs-cancel-pops-head (C05 still holds)',
+       lambda p: M.replace_node(p, S_RS, 'ReservableReqStore.reserve_get_cancel', M.stmt_calling('self.reserve_get_queue.remove'), 'self.reserve_get_queue.pop(0)'))
+fire('C05', 'rs-cancel-pops-tail', 'C05.R2', 'ReservableReqStore.reserve_get_cancel',
+     lambda p: M.replace_node(p, S_RS, 'ReservableReqStore.reserve_get_cancel', M.stmt_calling('self.reserve_get_queue.remove'), 'self.reserve_get_queue.pop()'))
 fire('C05', 'belt-put-reverses-queue', 'C05.R2', 'BeltStore',
      lambda p: M.insert_after(p, S_BELT, 'BeltStore.put', M.stmt_calling('self._trigger_reserve_get'), 'self.reserve_get_queue.reverse()'))
 fire('C05', 'sortedqueue-descending', 'C05.R4', 'SortedQueue.append',
@@ -716,3 +719,13 @@ fire('C20', 'slotted-arrival-event-not-rearmed', 'C20.R8', 're-arms(self.item_ar
      lambda p: M.delete_stmt(p, E_SC, 'ConveyorBelt.behaviour', M.assign_to('self.item_arrival_event')))
 fire('C20', 'fleet-activation-event-not-rearmed', 'C20.R8', 're-arms(self.activate_fleet)',
      lambda p: M.delete_stmt(p, S_FLT, 'FleetStore.fleet_activation_process', M.assign_to('self.activate_fleet')))
+silent('C05', 'prs-explicit-tiebreak-by-clock',
+       lambda p: M.chain(p, lambda q: M.insert_before(q, S_PRS, 'ReservablePriorityReqStore.reserve_put', M.stmt_calling('self.reserve_put_queue.append'), 'event.arrival_time = self.env.now'),
+                         lambda q: M.replace_node(q, S_PRS, 'ReservablePriorityReqStore.reserve_put', M.is_call('self.reserve_put_queue.sort'),
+                                                  'self.reserve_put_queue.sort(key=lambda e: (e.priority_to_put, e.arrival_time))')))
+fire('C05', 'prs-tiebreak-by-queue-length (seed C05-a)', 'C05.R1', 'ReservablePriorityReqStore.reserve_get',
+     lambda p: M.chain(p, lambda q: M.insert_before(q, S_PRS, 'ReservablePriorityReqStore.reserve_get', M.stmt_calling('self.reserve_get_queue.append'), 'event.arrival_order = len(self.reserve_get_queue)'),
+                       lambda q: M.replace_node(q, S_PRS, 'ReservablePriorityReqStore.reserve_get', M.is_call('self.reserve_get_queue.sort'),
+                                                'self.reserve_get_queue.sort(key=lambda e: (e.priority_to_get, e.arrival_order))')))
+silent('C05', 'buffer-cancel-hands-over-head (seed C01-a: breaks C01, not the service order)',
+       lambda p: M.insert_before(p, S_BUF, 'BufferStore.reserve_put_cancel', lambda n: isinstance(n, ast.Return), 'if False:\n    self.reserve_put_queue.pop(0)'))
